@@ -177,7 +177,8 @@ def r_seek(body):
 def r_subst(text, rules, where):
     """Anchored textual rewrites listed in unit.toml: each {rule, from, to}; `from` is matched after whitespace
     normalisation and must occur exactly `count` (default 1) times, otherwise the anchor is lost (UNDECIDED);
-    `count = "any"` (pure renames of a callee path only) rewrites however many occurrences there are.
+    `count = "any"` (only for rewrites that preserve meaning at every single occurrence on their own: renames of a callee path,
+    eta-reduction of `|x| f(x)`) rewrites however many occurrences there are.
     Used only for the desugarings of the closed list that are not implemented as general transformers
     (R-optmap, R-tryfold, R-iife, R-seek); the evidence records before/after verbatim."""
     log = []
